@@ -13,6 +13,7 @@
 # limitations under the License.
 
 import logging
+from collections import ChainMap
 
 import fontTools.pens.boundsPen
 from fontTools.misc.transform import Transform
@@ -73,8 +74,16 @@ class PropagateAnchorsIFilter(BaseIFilter):
         ):
             glyph = glyphSet.get(glyphName)
             if glyph is not None:
+                # Anchors are also propagated to the composites used as components:
+                # take those from the glyphSet being filtered, and only fall back to
+                # the interpolated layer for glyphs this master lacks, so that we
+                # never edit glyphs owned by the instantiator's source layers.
                 _propagate_glyph_anchors(
-                    interpolatedLayer or glyphSet,
+                    (
+                        ChainMap(glyphSet, interpolatedLayer)
+                        if interpolatedLayer is not None
+                        else glyphSet
+                    ),
                     glyph,
                     self.context.processed[i],
                     self.context.modified,
